@@ -4,9 +4,9 @@ from harness import gen_text as G
 
 class C19(Prop):
     id = 'C19'
-    theorems = ['C19.files_code_independent', 'C19.code_ignores_leading_comment', 'C19.line_spec', 'C19.prefix_spec', 'C19.render_spec', 'C19.starts_with_slashes',
+    theorems = ['C17.hist_comment', 'C17.observation_is_pure', 'C19.files_code_independent', 'C19.code_ignores_leading_comment', 'C19.line_spec', 'C19.prefix_spec', 'C19.render_spec', 'C19.starts_with_slashes',
                 'C19.content_rendering', 'C19.length_preserved']
-    proof_modules = ['DznProofs.C19', 'DznProofs.C19Files']
+    proof_modules = ['DznProofs.C19', 'DznProofs.C19Files', 'DznProofs.C17Hist']
     level_rule = ('hostile comment text: every Python line separator, leading/trailing whitespace, '
                   '*/, trailing backslash, #include lines, NBSP, nested content incl. nested '
                   'TextBlock/Comment objects; non-trivial = text with a separator, code-like token '
@@ -25,6 +25,7 @@ class C19(Prop):
                           for _ in range(n)]
         yield 'extended', [{'op': 'comment.str', 'content': G.gen_content(rng, rng.choice([0, 2])),
                             'extend': G.gen_content(rng, rng.choice([0, 1, 2]))} for _ in range(n // 2)]
+        yield 'comment.hist', [G.gen_hist(rng, comment=True) for _ in range(n // 2)]
 
     def impl(self, case):
         return G.run_text_op(case)
@@ -70,6 +71,8 @@ class C19(Prop):
         return s if any(b in s for b in ['\\n', '\\r', '\\u', '{"l"', '#', '*/', '\\\\']) else None
 
     def classify(self, case, impl_out):
+        if isinstance(impl_out, list):
+            return 'hist:%d' % len(impl_out)
         n = len(impl_out.get('before', []))
         return 'lines:' + ('0' if n == 0 else '1' if n == 1 else 'n')
 
